@@ -197,6 +197,8 @@ struct TxWorld {
     mtu: usize,
     now_ms: i64,
     echo_ident: u16,
+    /// emitted Ethernet frames whose link header is not (peer MAC, own MAC, IPv4)
+    bad_link: Vec<String>,
 }
 
 fn tx_world(c: &Case) -> TxWorld {
@@ -205,22 +207,24 @@ fn tx_world(c: &Case) -> TxWorld {
     let (mut dev, mut iface) = mk_iface(if eth { Medium::Ethernet } else { Medium::Ip }, mtu);
     let mut sockets = SocketSet::new(vec![]);
     let mut handles = vec![];
+    // room for every datagram a case can queue (at most 24), whatever FRAGMENTATION_BUFFER_SIZE is
+    let cap = 32 * (FRAGMENTATION_BUFFER_SIZE + 128);
     for (i, k) in c.get("kinds").unwrap_or("u").chars().enumerate() {
         let h = match k {
             'u' => {
-                let mk = || udp::PacketBuffer::new(vec![PacketMetadata::EMPTY; 16], vec![0u8; 40000]);
+                let mk = || udp::PacketBuffer::new(vec![PacketMetadata::EMPTY; 32], vec![0u8; cap]);
                 let mut s = udp::Socket::new(mk(), mk());
                 s.bind(1000 + i as u16).unwrap();
                 sockets.add(s)
             }
             'i' => {
-                let mk = || icmp::PacketBuffer::new(vec![PacketMetadata::EMPTY; 16], vec![0u8; 40000]);
+                let mk = || icmp::PacketBuffer::new(vec![PacketMetadata::EMPTY; 32], vec![0u8; cap]);
                 let mut s = icmp::Socket::new(mk(), mk());
                 s.bind(icmp::Endpoint::Ident(0x100 + i as u16)).unwrap();
                 sockets.add(s)
             }
             _ => {
-                let mk = || raw::PacketBuffer::new(vec![PacketMetadata::EMPTY; 16], vec![0u8; 40000]);
+                let mk = || raw::PacketBuffer::new(vec![PacketMetadata::EMPTY; 32], vec![0u8; cap]);
                 sockets.add(raw::Socket::new(Some(IpVersion::Ipv4), Some(IpProtocol::Unknown(253)), mk(), mk()))
             }
         };
@@ -237,7 +241,7 @@ fn tx_world(c: &Case) -> TxWorld {
         iface.poll(Instant::ZERO, &mut dev, &mut sockets);
         dev.drain_tx();
     }
-    TxWorld { dev, iface, sockets, handles, eth, mtu, now_ms: 0, echo_ident: 0x7000 }
+    TxWorld { dev, iface, sockets, handles, eth, mtu, now_ms: 0, echo_ident: 0x7000, bad_link: vec![] }
 }
 
 impl TxWorld {
@@ -267,12 +271,18 @@ impl TxWorld {
         self.dev.tx_budget = if budget < 0 { None } else { Some(budget as usize) };
         self.now_ms += 1;
         self.iface.poll(Instant::from_millis(self.now_ms), &mut self.dev, &mut self.sockets);
-        let eth = self.eth;
-        self.dev
-            .drain_tx()
-            .into_iter()
-            .map(|f| if eth { f[14.min(f.len())..].to_vec() } else { f })
-            .collect()
+        let mut out = vec![];
+        for f in self.dev.drain_tx() {
+            if self.eth {
+                if f.len() < 14 || f[0..6] != PEER_MAC || f[6..12] != LOCAL_MAC || f[12..14] != [8, 0] {
+                    self.bad_link.push(hex(&f[..14.min(f.len())]));
+                }
+                out.push(f[14.min(f.len())..].to_vec());
+            } else {
+                out.push(f);
+            }
+        }
+        out
     }
 }
 
@@ -686,6 +696,7 @@ fn oracle_tx(c: &Case, fails: &mut Vec<String>, st: &mut Stats) {
     let mut pending: Vec<(Vec<u8>, bool)> = vec![];
     // the fragment train being received by the independent reassembler: (ident, bytes so far)
     let mut cur: Option<(u16, Vec<u8>)> = None;
+    let mut cur_hdr: Option<([u8; 4], [u8; 4], u8)> = None;
     let mut last_ident: Option<u16> = None;
     for (opi, op) in c.ops.iter().enumerate() {
         let t: Vec<&str> = op.split_whitespace().collect();
@@ -746,6 +757,10 @@ fn oracle_tx(c: &Case, fails: &mut Vec<String>, st: &mut Stats) {
                         }
                         last_ident = Some(p.ident);
                         cur = Some((p.ident, vec![]));
+                        cur_hdr = Some((p.src, p.dst, p.proto));
+                    }
+                    if cur_hdr.is_some_and(|h| h != (p.src, p.dst, p.proto)) || p.src != LOCAL || p.dst != PEER {
+                        fail("fragment-header-fields-differ", format!("op#{} ident {} off {}: {:?}->{:?} proto {}", opi, p.ident, p.off, p.src, p.dst, p.proto));
                     }
                     match &mut cur {
                         Some((id, got)) if *id == p.ident && got.len() == p.off => {
@@ -763,6 +778,10 @@ fn oracle_tx(c: &Case, fails: &mut Vec<String>, st: &mut Stats) {
                         }
                         _ => fail("fragments-mixed", format!("op#{} fragment ident {} off {} does not continue the train in progress", opi, p.ident, p.off)),
                     }
+                }
+                if !w.bad_link.is_empty() {
+                    fail("fragment-wrong-link-header", format!("op#{} {:?}", opi, w.bad_link));
+                    w.bad_link.clear();
                 }
                 if !w.dev.oversize.is_empty() {
                     fail("fragment-exceeds-mtu", format!("op#{} device saw frames of {:?} bytes", opi, w.dev.oversize));
@@ -867,8 +886,11 @@ fn oracle_rx(c: &Case, fails: &mut Vec<String>, st: &mut Stats) {
             if t_first.is_none() {
                 t_first = Some(ts);
             }
-            if ts > t_first.unwrap() + timeout {
-                gaps_fit = false; // slot expired: no delivery demanded from here on
+            if ts >= t_first.unwrap() + timeout {
+                // the slot has (or, at the very instant of expiry, may have) expired: the property does not
+                // fix the expiry instant, so no delivery is demanded from here on (the correspondence
+                // stream still pins the exact rule `expires_at < now`)
+                gaps_fit = false;
             }
             if cover.len() < off + d.len() {
                 cover.resize(off + d.len(), false);
